@@ -330,11 +330,215 @@ def fmt0(fr):
     return sign + str(n)
 
 
+# ----------------------------------------------------------------------------------------
+# end-to-end CLI cases (extra stage): written proteinGroups.txt columns, formatted with '%.0f'
+# ----------------------------------------------------------------------------------------
+CLI_PEPTIDES = ["AAAAAAK", "CCCCCCR", "DDDDDDK", "EEEEEEK", "GGGGGGR", "HHHHHHK", "LLLLLLR", "NNNNNNK"]
+PG_HEADERS = [
+    "Protein IDs", "Majority protein IDs", "Peptide counts (unique)", "Best peptide", "Number of proteins",
+    "Q-value", "Score", "Reverse", "Potential contaminant",
+]
+UNMODELLED = {"Protein names", "Gene names", "Fasta headers"}
+
+
+def clean_peptide(p):
+    return p.replace("(ox)", "")
+
+
+def is_unmodelled_header(h):
+    return h in PG_HEADERS or h in UNMODELLED or "equence coverage [%]" in h
+
+
+def fmt_cell(x):
+    """writers.base._format_extra_columns on a model value"""
+    if isinstance(x, str):
+        return x
+    if isinstance(x, int):
+        return "%d" % x
+    return fmt0(unrat(x))
+
+
+def table_from_view(view):
+    """model / oracle values -> {header: text} per reported row, in the MaxQuant writer's header names"""
+    if "groups" not in view:
+        return view
+    exps = view["experiments"]
+    S = view["nSilac"] if view["nSilac"] > 0 else 0
+    T = view["nTmt"]
+    chans = SILAC_NAMES.get(S, [])
+    rows = []
+    for g in view["groups"]:
+        col = {"Combined Total Peptides": fmt_cell(g["counts"][0])}
+        for i, e in enumerate(exps):
+            col["Unique peptides " + e] = fmt_cell(g["counts"][i + 1])
+            col["Identification type " + e] = g["idType"][i]
+        col["Intensity"] = fmt_cell(g["total"])
+        col["iBAQ"] = fmt_cell(g["ibaqTotal"])
+        col["Number of theoretical peptides iBAQ"] = ";".join(str(n) for n in g["nPeps"])
+        k = 0
+        for e in exps:
+            col["Intensity " + e] = fmt_cell(g["intens"][k])
+            col["iBAQ " + e] = fmt_cell(g["ibaq"][k])
+            k += 1
+            for ch in chans:
+                col["Intensity " + ch + " " + e] = fmt_cell(g["intens"][k])
+                col["iBAQ " + ch + " " + e] = fmt_cell(g["ibaq"][k])
+                k += 1
+        if T > 0:
+            k = 0
+            for e in exps:
+                for kind in ("Reporter intensity corrected ", "Reporter intensity ", "Reporter intensity count "):
+                    for i in range(1, T + 1):
+                        col[kind + str(i) + " " + e] = fmt_cell(g["tmt"][k])
+                        k += 1
+        col["Evidence IDs"] = ";".join(str(i) for i in g["evidenceIds"])
+        rows.append({"ids": ";".join(g["ids"]), "cols": col})
+    return {"rows": rows}
+
+
+def run_cli(case):
+    tmp = tempfile.mkdtemp(prefix="c12cli_")
+    try:
+        fasta = os.path.join(tmp, "db.fasta")
+        with open(fasta, "w") as f:
+            for name, seq in case["fasta"]:
+                f.write(">%s\n%s\n" % (name, seq))
+        evs = []
+        for i, rows in enumerate(case["files"]):
+            p = os.path.join(tmp, f"evidence_{i}.txt")
+            render_evidence(p, rows, case["layout"])
+            evs.append(p)
+        out = os.path.join(tmp, "out.txt")
+        level = rat_to_float(case["level"])
+        tail = ["--protein_groups_out", out, "--fasta", fasta, "--psm_fdr_cutoff", repr(level), "--skip_lfq"]
+        if case["cli"] == "quant":
+            pg = os.path.join(tmp, "proteinGroups.txt")
+            with open(pg, "w", newline="") as f:
+                w = csv.writer(f, delimiter="\t")
+                w.writerow(PG_HEADERS)
+                for g in case["groups"]:
+                    w.writerow([";".join(g), ";".join(g), ";".join("1" for _ in g), "", len(g), 0.001, 10.0, "", ""])
+            argv = ["--mq_evidence"] + evs + ["--mq_protein_groups", pg] + tail
+            cmd = [lib.PY, "-m", "picked_group_fdr.quantification"] + argv
+        else:
+            argv = ["--mq_evidence"] + evs + ["--methods", case["method"], "--do_quant"] + tail
+            cmd = [lib.PY, "-m", "picked_group_fdr"] + argv
+        pr = subprocess.run(cmd, env=lib.impl_env(), capture_output=True, text=True, timeout=300, cwd=tmp)
+        if pr.returncode != 0 or not os.path.exists(out):
+            return {"exc": "CliFailed", "msg": (pr.stderr or pr.stdout)[-600:]}
+        with open(out, newline="") as f:
+            table = list(csv.reader(f, delimiter="\t"))
+        hdr = table[0]
+        rows = []
+        for line in table[1:]:
+            if len(line) != len(hdr):
+                return {"err": "ragged", "headers": len(hdr), "values": len(line)}
+            d = dict(zip(hdr, line))
+            rows.append({"ids": d["Protein IDs"], "cols": {h: v for h, v in d.items() if not is_unmodelled_header(h)}})
+        if len(set(hdr)) != len(hdr):
+            return {"err": "duplicate_headers"}
+        # inputs of the model that the CLI derives from the FASTA (properties C08/C09): the peptide -> protein
+        # map used for remapping and the iBAQ peptide numbers, obtained from the real digestion code
+        from picked_group_fdr import quantification, peptide_protein_map, digest
+
+        args = quantification.parse_args(
+            ["--mq_evidence"] + evs + ["--mq_protein_groups", "unused", "--protein_groups_out", out, "--fasta", fasta]
+        )
+        args.mq_protein_groups = None  # only read for "_entrapment" identifiers, which are not generated
+        maps = peptide_protein_map.get_peptide_to_protein_maps_from_args(args, False)
+        pepmap = {}
+        for r in all_rows(case):
+            cp = clean_peptide(r["pep"])
+            pepmap[cp] = list(digest.get_proteins(maps[0], cp))
+        ibaq = digest.get_num_ibaq_peptides_per_protein_from_args(args, maps)
+        prots = sorted({p for row in rows for p in row["ids"].split(";")} | {p for g in case.get("groups", []) for p in g})
+        return {"rows": rows, "_rec": {"pepmap": pepmap, "ibaq": [[p, int(ibaq.get(p, 0))] for p in prots]}}
+    finally:
+        shutil.rmtree(tmp, ignore_errors=True)
+
+
+def cli_abstract(case, impl_out):
+    """the abstract case (evidence rows with the remapped protein lists, reported groups, iBAQ numbers)
+    that the in-process machinery understands"""
+    rec = impl_out["_rec"]
+    if "no_remap" in case.get("method", ""):  # the protein lists are taken from the evidence file as they are
+        files = case["files"]
+    else:  # remapped through the digested FASTA; a peptide that is not found is dropped by the parser
+        files = [[dict(r, prot=rec["pepmap"].get(clean_peptide(r["pep"]), [])) for r in rows] for rows in case["files"]]
+    if case["cli"] == "quant":
+        groups = case["groups"]
+    else:  # the reported groups are read back from the written table
+        groups = [row["ids"].split(";") for row in impl_out["rows"]]
+    return {"files": files, "groups": groups, "level": case["level"], "ibaq": rec["ibaq"], "layout": case["layout"]}
+
+
+def gen_cli_case(rng, flow):
+    nprot = rng.choice([3, 4, 5])
+    names = ["P%d" % (i + 1) for i in range(nprot)]
+    seqs = {}
+    for n in names:
+        seqs[n] = rng.sample(CLI_PEPTIDES, rng.choice([2, 3, 3, 4]))
+    fasta = [[n, "".join(seqs[n])] for n in names]
+    layout = {
+        "silac": rng.choice([0, 0, 2, 3]),
+        "tmt": rng.choice([0, 0, 0, 2]),
+        "has_experiment": True,
+        "has_fraction": rng.random() < 0.5,
+    }
+    exps = rng.sample(["E1", "E2", "E10"], rng.choice([1, 2, 3]))
+    rows = []
+    for i in range(rng.choice([10, 14, 18, 22])):
+        pep = rng.choice(CLI_PEPTIDES + ["WWWWWWK"])
+        if rng.random() < 0.2:
+            pep += "(ox)"
+        if rows and rng.random() < 0.35:
+            pep = rng.choice(rows)["pep"]
+        r = rng.random()
+        pp = "nan" if r < 0.25 else rat(Fraction(rng.randint(0, 12 if r < 0.9 else 1024), 1024))
+        r = rng.random()
+        inten = None if r < 0.05 else "empty" if r < 0.1 else rat(Fraction(2 * rng.randint(0, 3000) + rng.choice([0, 0, 1]), 2))
+        rows.append(
+            {
+                "id": i,
+                "pep": pep,
+                "z": rng.choice([2, 2, 3]),
+                "exp": rng.choice(exps),
+                "frac": str(rng.choice([1, 2])) if layout["has_fraction"] else "-1",
+                "prot": [n for n in names if clean_peptide(pep) in seqs[n]] or ["Q0"],
+                "int": inten,
+                "pp": pp,
+                "silac": [rat(Fraction(rng.randint(0, 5000), rng.choice([1, 2]))) for _ in range(layout["silac"])],
+                "tmt": [rat(Fraction(rng.randint(0, 3000), rng.choice([1, 2]))) for _ in range(3 * layout["tmt"])],
+            }
+        )
+    case = {
+        "cli": flow,
+        "fasta": fasta,
+        "files": [rows],
+        "level": rat(rng.choice([0.01, 0.01, 0.05, 0.002])),
+        "layout": layout,
+    }
+    if flow == "quant":
+        pool = list(names)
+        rng.shuffle(pool)
+        groups = []
+        while pool:
+            k = rng.choice([1, 1, 2])
+            groups.append(pool[:k])
+            pool = pool[k:]
+        if rng.random() < 0.5:
+            groups = groups[:-1]  # an unreported protein
+        case["groups"] = groups
+    else:
+        case["method"] = rng.choice(["picked_protein_group_mq_input", "picked_protein_group_mq_input_no_remap"])
+    return case
+
+
 class P(Prop):
     id = "C12"
-    quick_cases = 700
-    thorough_cases = 24000
-    chunk = 50
+    quick_cases = 1600
+    thorough_cases = 120000
+    chunk = 100
     rule = (
         "evidence file sets rendered from abstract rows: 1-2 files, 0-14 rows, 1-3 experiments, optional Fraction / "
         "Experiment columns, charges 2-3, 8 peptides (one modified form), MBR rows (empty PEP), NaN / empty intensities, "
@@ -442,6 +646,14 @@ class P(Prop):
                     ],
                     "tmt": [rat(Fraction(rng.randint(0, 3000), rng.choice([1, 1, 2]))) for _ in range(3 * layout["tmt"])],
                 }
+                prev = [x for f in files for x in f] + rows
+                if prev and rng.random() < 0.35:  # another run of an earlier precursor (often match-between-runs)
+                    src = rng.choice(prev)
+                    row["pep"], row["prot"] = src["pep"], list(src["prot"])
+                    if rng.random() < 0.8:
+                        row["z"] = src["z"]
+                    if rng.random() < 0.6:
+                        row["pp"] = "nan"
                 next_id += 1
                 rows.append(row)
             files.append(rows)
@@ -451,16 +663,21 @@ class P(Prop):
         means = [sum(fin[: k + 1], Fraction(0)) / (k + 1) for k in range(len(fin))]
         r = rng.random()
         if means and r < 0.4:
-            level = float(rng.choice(means))
+            m = rng.choice(means)
+            level = float(m)
+            if F(level) != m:  # not representable: stay clear of the rounding boundary
+                level += rng.choice([-1, 1]) * 2.0**-12
         elif means and r < 0.5:
             level = float(rng.choice(means)) + rng.choice([-1, 1]) * 2.0**-12
         else:
             level = rng.choice([0.0, 0.001, 0.01, 0.01, 0.05, 0.1, 0.25, 1.0])
-        ibaq = [[p, rng.choice([0, 0, 1, 2, 3, 7, 12])] for p in reported if rng.random() < 0.8]
+        ibaq = [[p, rng.choice([0, 0, 1, 2, 3, 7, 12])] for p in sorted(set(reported)) if rng.random() < 0.8]
         return {"files": files, "groups": groups, "level": rat(level), "ibaq": ibaq, "layout": layout}
 
     # -- the implementation --------------------------------------------------------------
     def run_impl(self, case):
+        if case.get("cli"):
+            return run_cli(case)
         import collections
         import numpy as np
         from picked_group_fdr import results, writers
@@ -588,6 +805,10 @@ class P(Prop):
         return o_near_tie([p for p in rec.get("peps", []) if p != "nan"], unrat(case["level"]))
 
     def model_request(self, case, impl_out):
+        if case.get("cli"):
+            if not isinstance(impl_out, dict) or "_rec" not in impl_out:
+                return None
+            case = cli_abstract(case, impl_out)
         if self._near_tie(case):
             return None
         return {
@@ -599,15 +820,30 @@ class P(Prop):
         }
 
     def model_view(self, case, resp, impl_out):
+        if case.get("cli"):
+            return table_from_view(round_quotients(resp))
         return round_quotients(resp)
 
     def impl_view(self, case, impl_out):
+        if isinstance(impl_out, dict) and "_rec" in impl_out:
+            return {k: v for k, v in impl_out.items() if k != "_rec"}
         return impl_out
 
     # -- the property ------------------------------------------------------------------------
     def oracle(self, case, impl_out):
         if not isinstance(impl_out, dict):
             return "no output: %r" % (impl_out,)
+        if case.get("cli"):
+            if "_rec" not in impl_out:
+                return "CLI run gave no table: %r" % (impl_out,)
+            abstract = cli_abstract(case, impl_out)
+            if self._near_tie(abstract):
+                return None
+            want = table_from_view(round_quotients(recompute(abstract)))
+            if case["cli"] == "main" and "rows" in want:
+                pass
+            d = first_diff(want, self.impl_view(case, impl_out), "table")
+            return ("written proteinGroups.txt differs from the recomputation (expected vs written) at " + d) if d else None
         if self._near_tie(case):
             return None
         want = round_quotients(recompute(case))
@@ -629,6 +865,8 @@ class P(Prop):
         return None
 
     def nontrivial(self, case, impl_out):
+        if case.get("cli"):
+            return isinstance(impl_out, dict) and bool(impl_out.get("rows"))
         if not isinstance(impl_out, dict) or "groups" not in impl_out:
             return False
         n_att = sum(len(a) for a in impl_out["attached"])
@@ -636,6 +874,8 @@ class P(Prop):
         return used > 0 and n_att < len(all_rows(case))
 
     def features(self, case, impl_out):
+        if case.get("cli"):
+            return ["cli=" + case["cli"]]
         f = []
         lay = case["layout"]
         f.append("silac=%d" % lay["silac"])
@@ -670,7 +910,42 @@ class P(Prop):
             f.append("near_tie_skipped")
         return f
 
+    # -- extra stage: end-to-end CLI runs ------------------------------------------------------
+    def extra(self, ctx):
+        if ctx.get("replay"):
+            return None
+        rng = random.Random(977 * int(ctx["seed"]) + 12)
+        flows = ["quant", "quant", "quant", "quant", "main", "main"]
+        if ctx["tier"] == "thorough":
+            flows = flows * 6
+        cases = [gen_cli_case(rng, f) for f in flows]
+        recs = lib.evaluate_cases(self, cases, ctx["model"])
+        failures = []
+        ok = 0
+        for r in recs:
+            if r["oracle"] is not None or r["disagree"] is not None:
+                failures.append({"case": r["case"], "impl": r.get("impl"), "disagree": r.get("disagree"), "why": r.get("oracle")})
+            else:
+                ok += 1
+        return {
+            "evaluations": len(cases),
+            "failures": failures,
+            "info": {
+                "cli_runs": len(cases),
+                "cli_runs_equal": ok,
+                "flows": {f: flows.count(f) for f in set(flows)},
+                "compared": "every quantification column of the written proteinGroups.txt (counts, id types, "
+                "Intensity / iBAQ incl. SILAC, theoretical peptide numbers, TMT reporter sums, evidence ids) with the "
+                "model's values formatted by '%.0f' (half-even on the double), and with the Fraction recomputation",
+            },
+        }
+
     def shrink(self, case):
+        if case.get("cli"):
+            rows = case["files"][0]
+            for i in range(len(rows)):
+                yield dict(case, files=[rows[:i] + rows[i + 1 :]])
+            return
         files = case["files"]
         for fi, rows in enumerate(files):
             if len(files) > 1:
